@@ -678,7 +678,7 @@ EntD == 2520
 
 GhostInit == [funded |-> EmptyF, entD |-> EmptyF, entOK |-> EmptyF, released |-> EmptyF, refunded |-> EmptyF, refunds |-> EmptyF,
               paid |-> EmptyF, touches |-> EmptyF, maxLocked |-> EmptyF,
-              updates |-> EmptyF,
+              updates |-> EmptyF, staked |-> EmptyF, rate |-> EmptyF,
               xesc |-> EmptyF, xpool |-> EmptyF, xback |-> EmptyF, xcancel |-> {}]
 
 (* Governance steps as seen in the observed states.
@@ -750,6 +750,26 @@ GhostStep(g, s, e, t) ==
                    old(g.updates, p, 0)
                    + (IF p \in DOMAIN s.pools /\ t.pools[p].lastH > s.pools[p].lastH
                          /\ s.pools[p].total > 0 THEN 1 ELSE 0)],
+   \* HISTORY LEDGERS (audit round 8: clauses whose antecedent or expected value was read
+   \* from the module's own records go blind when a defect corrupts those records).
+   \* staked[p][f]: what f put into p by accepted Stake messages minus what accepted
+   \* Unstake messages took out (a pool first seen with stakes starts from them);
+   \* rate[p][d]: the reward per block the creator last set - the accepted CreatePool /
+   \* AdjustPool message (a pool born otherwise, from a passed proposal, starts from
+   \* what is first seen)
+   staked   |-> [p \in ps |-> [f \in UsersOf(t) |->
+                   (IF p \in DOMAIN g.staked /\ f \in DOMAIN g.staked[p] THEN g.staked[p][f]
+                    ELSE IF p \in DOMAIN s.pools /\ p \in DOMAIN s.fi THEN InfoOf(s, p, f).locked ELSE 0)
+                   + (IF e.ok /\ e.pool = p /\ e.who = f
+                      THEN (IF e.name = "Stake" THEN e.amt
+                            ELSE IF e.name = "Unstake" THEN 0 - e.amt ELSE 0)
+                      ELSE 0)]],
+   rate     |-> [p \in ps |-> [d \in DOMAIN t.pools[p].rules |->
+                   IF e.name = "AdjustPool" /\ e.ok /\ e.pool = p /\ d \in DOMAIN e.rpb THEN e.rpb[d]
+                   ELSE IF p \in DOMAIN g.rate /\ d \in DOMAIN g.rate[p] THEN g.rate[p][d]
+                   ELSE IF p \in DOMAIN s.pools /\ d \in DOMAIN s.pools[p].rules THEN s.pools[p].rules[d].rpb
+                   ELSE IF e.name = "CreatePool" /\ e.ok THEN Amt(e.rpb, d)
+                   ELSE t.pools[p].rules[d].rpb]],
    \* proposals: what was escrowed, how often a pool was created from it, how
    \* often the escrow went back, which were cancelled by their proposer
    xesc     |-> LET new == DOMAIN t.esc \ DOMAIN s.esc IN
@@ -796,6 +816,24 @@ C05_UnstakeNeverFails(s, e) ==
      /\ e.amt > 0 /\ e.amt <= s.fi[e.pool][e.who].locked)
   => e.ok
 
+(* C05, judged from the HISTORY instead of the module's farmer record (twin of the
+   clause above; one verdict name in the trace specification): an unstake of no more
+   than what the farmer put in by accepted stakes and has not yet taken out is never
+   refused - whatever a defect did to the farmer's record in between *)
+C05_UnstakeNeverFailsH(e, g) ==
+  (e.name = "Unstake" /\ ~e.ok /\ e.amt > 0
+     /\ e.pool \in DOMAIN g.staked /\ e.who \in DOMAIN g.staked[e.pool])
+  => e.amt > g.staked[e.pool][e.who]
+
+(* C05 "exactly accounted for": every farmer's recorded stake is what their accepted
+   stakes put in minus what their accepted unstakes took out - no other event, of
+   anybody, in any pool, moves it (per-event exactness and the frame clause leave out
+   the farmer's own harvests and every event outside the farm messages) *)
+C05_StakeLedger(t, g) ==
+  \A p \in DOMAIN t.pools : \A f \in UsersOf(t) :
+    (p \in DOMAIN g.staked /\ f \in DOMAIN g.staked[p]) =>
+      InfoOf(t, p, f).locked = g.staked[p][f]
+
 (* C05: ... and returns exactly that amount plus the accrued rewards *)
 C05_UnstakeExact(s, e, t) ==
   (e.name = "Unstake" /\ e.ok) =>
@@ -814,7 +852,10 @@ C05_StakeExact(s, e, t) ==
 (* nobody else's stake or LP balance changes in a farmer operation *)
 C05_OthersUntouched(s, e, t) ==
   (e.name \in FarmerOps \cup {"AdjustPool", "DestroyPool", "CreatePool", "EndBlock"}) =>
-    \A p \in DOMAIN s.pools : \A f \in DOMAIN s.fi[p] :
+    \* no pool (with the stakes recorded under it) disappears (audit round 8; evaluated
+    \* first, so that a vanished pool is a clause failure and not an evaluation error)
+    /\ DOMAIN s.pools \subseteq DOMAIN t.pools /\ DOMAIN s.pools \subseteq DOMAIN t.fi
+    /\ \A p \in DOMAIN s.pools : \A f \in DOMAIN s.fi[p] :
       (~(e.name \in FarmerOps /\ e.who = f /\ e.pool = p)) =>
         /\ f \in DOMAIN t.fi[p]
         /\ t.fi[p][f].locked = s.fi[p][f].locked
@@ -889,6 +930,23 @@ C06_RefundOnce(s, e, t, g) ==
          \A d \in DOMAIN s.pools[p].rules :
            \* outside a refund the budget only shrinks by releases
            Drop(s, t, p, d) = RateDue(s, t, p, d)
+
+(* C06 "returned ... when the pool ends", without the queue: RefundedIn above calls a
+   pool refunded when its queue entry went away, so a defect that loses or misplaces
+   the entry makes the conjuncts above speak about nothing.  Whatever the queue says,
+   a pool whose end height lies behind the current height has no budget left. *)
+C06_EndedEmpty(t) ==
+  \A p \in DOMAIN t.pools :
+    (t.pools[p].end < t.h) =>
+      \A d \in DOMAIN t.pools[p].rules : t.pools[p].rules[d].remaining = 0
+
+(* C06 "reward-per-block": the rate every clause above multiplies with is the recorded
+   one; it is the rate the creator set - in the accepted CreatePool message, or in the
+   last accepted AdjustPool message that named the denomination *)
+C06_RateSet(t, g) ==
+  \A p \in DOMAIN t.pools : \A d \in DOMAIN t.pools[p].rules :
+    (p \in DOMAIN g.rate /\ d \in DOMAIN g.rate[p]) =>
+      t.pools[p].rules[d].rpb = g.rate[p][d]
 
 (* C06: every farmer's cumulative payout is their stake-weighted share of the
    releases, up to one unit per interaction plus accumulator truncation.
@@ -1115,6 +1173,15 @@ C13_OnceOnTime(s, e, t, g) ==
        /\ \A p \in RefundedIn(s, e, t) : s.pools[p].end = s.h
        /\ \A p \in DOMAIN s.pools :
             (<<s.h, p>> \in s.queue) => p \in RefundedIn(s, e, t)
+       \* the same without the queue as the witness of "due" and of "processed": a pool
+       \* whose end height is this block's has been refunded exactly once by now (in this
+       \* end-block, or by its creator's destroy earlier in the block), and a pool the
+       \* end-block took from the queue was really closed: nothing left, accrued to here
+       /\ \A p \in DOMAIN s.pools \cap DOMAIN t.pools :
+            (s.pools[p].end = s.h) => g.refunds[p] = 1
+       /\ \A p \in RefundedIn(s, e, t) :
+            /\ \A d \in DOMAIN t.pools[p].rules : t.pools[p].rules[d].remaining = 0
+            /\ t.pools[p].lastH = s.h
 
 -----------------------------------------------------------------------------
 (* Model-checking universe *)
@@ -1361,6 +1428,11 @@ Act_C05_UnstakeNeverFails == [][C05_UnstakeNeverFails(st, ev')]_vars
    still a violation of the design. *)
 Act_C05_UnstakeNeverFails_ModF2 ==
   [][C05_UnstakeNeverFails(st, ev') \/ Apply(st, ev').why = "collector_short"]_vars
+Act_Gh_C05_UnstakeNeverFailsH_ModF2 ==
+  [][C05_UnstakeNeverFailsH(ev', gh') \/ Apply(st, ev').why = "collector_short"]_vars
+Act_Gh_C05_StakeLedger == [][C05_StakeLedger(st', gh')]_vars
+Act_Gh_C06_RateSet == [][C06_RateSet(st', gh')]_vars
+Inv_C06_EndedEmpty == C06_EndedEmpty(st)
 Act_C05_UnstakeExact == [][C05_UnstakeExact(st, ev', st')]_vars
 Act_C05_StakeExact == [][C05_StakeExact(st, ev', st')]_vars
 Act_C05_OthersUntouched == [][C05_OthersUntouched(st, ev', st')]_vars
